@@ -17,29 +17,29 @@ theorem segE_no_amp (k v : Bytes) : ∀ c ∈ segE k v, c ≠ 38 := by
     · subst h; decide
     · exact (quote_no_sep _ c h).1
 
-theorem decodeSeg_segE (k v : Bytes) : decodeSeg (segE k v) = some (k, v) := by
+theorem decodeSeg_segE (t : HexTab) (k v : Bytes) : decodeSeg t (segE k v) = some (k, v) := by
   unfold decodeSeg segE
   simp [splitEq_eq _ _ (fun c hc => (quote_no_sep k c hc).2), unquote_quote]
 
-theorem scanOne_lastE (k v : Bytes) : scanOne (segE k v) = (some (k, v), []) := by
+theorem scanOne_lastE (t : HexTab) (k v : Bytes) : scanOne t (segE k v) = (some (k, v), []) := by
   unfold scanOne
   rw [splitAmp_noamp _ (segE_no_amp k v)]
   simp [decodeSeg_segE]
 
-theorem scanOne_moreE (k v r : Bytes) : scanOne (segE k v ++ 38 :: r) = (some (k, v), r) := by
+theorem scanOne_moreE (t : HexTab) (k v r : Bytes) : scanOne t (segE k v ++ 38 :: r) = (some (k, v), r) := by
   unfold scanOne
   rw [splitAmp_amp _ _ (segE_no_amp k v)]
   simp [decodeSeg_segE]
 
 theorem segE_ne_nil (k v : Bytes) : segE k v ≠ [] := by unfold segE; simp
 
-theorem scanAll_lastE (k v : Bytes) : scanAll (segE k v) = some [(k, v)] := by
+theorem scanAll_lastE (t : HexTab) (k v : Bytes) : scanAll t (segE k v) = some [(k, v)] := by
   cases h : segE k v with
   | nil => exact absurd h (segE_ne_nil k v)
   | cons c cs => rw [scanAll_cons, ← h, scanOne_lastE]; simp [scanAll_nil]
 
-theorem scanAll_moreE (k v r : Bytes) (l : List KV) (hr : scanAll r = some l) :
-    scanAll (segE k v ++ 38 :: r) = some ((k, v) :: l) := by
+theorem scanAll_moreE (t : HexTab) (k v r : Bytes) (l : List KV) (hr : scanAll t r = some l) :
+    scanAll t (segE k v ++ 38 :: r) = some ((k, v) :: l) := by
   cases h : segE k v ++ 38 :: r with
   | nil => simp at h
   | cons c cs => rw [scanAll_cons, ← h, scanOne_moreE]; simp [hr]
@@ -107,17 +107,17 @@ theorem decode_encode (s : Status) (h : Num.inInt32 s.code) : decode (encode s) 
       simp [decodeFrom, firstOf, hc, k1, k2]
     | some c =>
       simp only [List.isEmpty_nil, if_true, List.append_nil]
-      rw [scanAll_moreE _ _ _ _ (scanAll_lastE kCause c)]
+      rw [scanAll_moreE _ _ _ _ _ (scanAll_lastE _ kCause c)]
       simp [decodeFrom, firstOf, hc, k1, k2, k6]
   · cases cause with
     | none =>
       simp only [hm, if_false, List.append_nil, Bool.false_eq_true]
-      rw [scanAll_moreE _ _ _ _ (scanAll_lastE kMsg msg)]
+      rw [scanAll_moreE _ _ _ _ _ (scanAll_lastE _ kMsg msg)]
       simp [decodeFrom, firstOf, hc, k1, k2, k3]
     | some c =>
       simp only [hm, if_false, Bool.false_eq_true]
       rw [List.append_assoc, List.cons_append,
-        scanAll_moreE _ _ _ _ (scanAll_moreE _ _ _ _ (scanAll_lastE kCause c))]
+        scanAll_moreE _ _ _ _ _ (scanAll_moreE _ _ _ _ _ (scanAll_lastE _ kCause c))]
       simp [decodeFrom, firstOf, hc, k1, k2, k3]
 
 end Status
